@@ -40,6 +40,7 @@ type Recorder struct {
 	extra      map[string]any
 	violations int
 	incon      []string
+	fallback   json.RawMessage // the first case seen, used when no sample was captured
 	exhaustive bool
 	known      map[string]Finding
 }
@@ -211,6 +212,7 @@ func (r *Recorder) Sample(class string, c any) {
 	r.sampleSeen[class]++
 	b, err := json.Marshal(c)
 	if err != nil {
+		fmt.Fprintf(os.Stderr, "ev.Sample: cannot marshal sample of class %s: %v\n", class, err)
 		return
 	}
 	if len(b) > 6000 {
@@ -219,6 +221,19 @@ func (r *Recorder) Sample(class string, c any) {
 		b, _ = json.Marshal(map[string]any{"class": class, "case": json.RawMessage(b)})
 	}
 	r.samples = append(r.samples, json.RawMessage(b))
+}
+
+func (r *Recorder) keepFallback(c any) {
+	r.mu.Lock()
+	defer r.mu.Unlock()
+	if r.fallback == nil {
+		if b, err := json.Marshal(c); err == nil {
+			if len(b) > 3000 {
+				b, _ = json.Marshal(map[string]any{"truncated_json_prefix": string(b[:3000]), "json_bytes": len(b)})
+			}
+			r.fallback = b
+		}
+	}
 }
 
 // Extra sets an additional coverage key.
@@ -276,6 +291,10 @@ func (r *Recorder) Violations() int { r.mu.Lock(); defer r.mu.Unlock(); return r
 func (r *Recorder) Write() {
 	r.mu.Lock()
 	defer r.mu.Unlock()
+	if len(r.samples) == 0 && r.fallback != nil {
+		fmt.Fprintf(os.Stderr, "ev: no sample was captured for %s; using the first generated case\n", r.ID)
+		r.samples = append(r.samples, r.fallback)
+	}
 	cov := map[string]any{
 		"evaluations":         r.evals,
 		"distinct_nontrivial": len(r.hashes),
@@ -346,6 +365,7 @@ func Rapid[C any](t *testing.T, r *Recorder, phase string, n int, gen func(*rapi
 			ran++
 			if ran <= 2 {
 				r.Sample(phase+"_first", c)
+				r.keepFallback(c)
 			}
 			if f := run(c); f != nil {
 				cc := c
